@@ -6,7 +6,7 @@ from ..runner import sut, expect, Fail
 
 ID = 'C01'
 RULE = ('cases: random molecule model (C N O S P F Cl Br, charged centres, chains, branches, aliphatic rings, '
-        'benzene/pyridine rings, bond orders 1-3; size classes up to 14/20 heavy atoms) x random partition into '
+        'benzene/pyridine rings, para/ortho-quinoid rings written upper- or lower-case, bond orders 1-3; size classes up to 14/20 heavy atoms) x random partition into '
         '1..n connected fragments x one uniquely labelled descriptor pair per cut bond ($x/$x or >x/<x with the '
         'order symbol) x random SMILES rendering per fragment (root, branch order, ring digits 1-9/%nn, bracket '
         'atoms, explicit single bonds, descriptor before/after ring digits, after branches, leading) x shuffled '
@@ -43,6 +43,11 @@ def build_case(R, tier, min_frags=1, classes=None, kinds=('$', '><')):
         # bonds then carry order 1 or 2 on their descriptors, the result is still aromatic
         mr = molgen.kekulized(R, m)
         feats.add('kekule_rendering')
+    elif m.quin_rings and R.chance(0.75):
+        # quinoid rings (conjugated, not aromatic) written lower-case: cut ring bonds carry no order,
+        # exocyclic C=O / C=C cuts carry '='; the unique Kekule structure has to come back
+        mr = molgen.lowered(m)
+        feats.add('quinoid_ring_written_lower_case')
     s, info = molgen.build_cgsmiles(R, mr, owner, kinds=kinds, style=style, feats=feats)
     if s is None:
         return None, None, None
@@ -72,7 +77,7 @@ def gen(R, tier):
         return None
     info = x['info']
     # uncut molecule as a single fragment
-    ms = molgen.kekulized(R, m) if (m.arom_rings and R.chance(0.3)) else m
+    ms = molgen.kekulized(R, m) if (m.arom_rings and R.chance(0.3)) else molgen.lowered(m) if (m.quin_rings and R.chance(0.5)) else m
     single, _ = molgen.render_fragment(R, ms, list(range(len(m.atoms))), {}, x['style'])
     # base graph as nx.Graph with shuffled insertion order
     order = list(info['base'].nodes)
